@@ -283,37 +283,6 @@
         std::mem::forget(r);
     }
 
-// @h id=H13.w prop=C13 tier=thorough cap=3000 mem=16 unwind=12 uw="h13_w=40;write_all=12" bounds="directory of N=1 valid entry (any field values); every fragmentation schedule of the output stream (each write accepts k bytes, 1 <= k <= offered, k fresh per call)"
-    /// the directory serialiser emits byte-identical output however the stream fragments the writes
-    #[kani::proof]
-    fn h13_w_directory_write_fragmented() {
-        const N: usize = 1;
-        const M: usize = 1 + 30 * N;
-        let e = any_entries::<N>();
-        assume_valid(&e);
-        let d = to_dir(&e);
-        let mut out = [0u8; M];
-        let mut wtr = FixW::new(&mut out, 0);
-        wtr.frag = true;
-        let r = d.to_writer(&mut wtr, Compression::None);
-        assert!(r.is_ok());
-        std::mem::forget(r);
-        let n = wtr.pos as usize;
-        let writes = wtr.writes;
-        let mut want = [0u8; M];
-        let m = vr::ref_encode(&e, &mut want);
-        assert!(n == m);
-        let mut i = 0;
-        while i < M {
-            if i < n { assert!(out[i] == want[i]); }
-            i += 1;
-        }
-        kani::cover!(writes > 5);      // some write was split
-        kani::cover!(writes == 5);     // none was
-        kani::cover!(n == 29);
-        std::mem::forget(d);
-    }
-
 // @h id=H13.d prop=C13 tier=quick cap=900 mem=16 unwind=12 uw="FixR=12" bounds="directory image of N=1 entry with padded varints (31 bytes, every valid entry); the reader answers every read with k bytes, 1 <= k <= requested"
     /// the directory parser returns the same entries from a fragmenting stream as from an in-memory buffer (H5.2)
     #[kani::proof]
